@@ -11,6 +11,11 @@
 (* fails, val] (methL / asgML: a method of an object held in a rule local). The *)
 (* statement after block b is the observer `after(b)` followed by one       *)
 (* `see(c, value)` per assignment child c of the blocks passed so far.     *)
+(* A block in `quiet` is followed directly by the next block (no statement *)
+(* in between): the next block is then "the statement after the block".    *)
+(* dups[b] = number of copies of one and the same uncounted statement      *)
+(* (`obj.Bump()`) among the statements of block b: identical statements    *)
+(* are statements of their own, each runs once; `after` reports the count. *)
 (***************************************************************************)
 EXTENDS Integers, Sequences, FiniteSets, TLC
 
@@ -18,8 +23,10 @@ VARIABLES blocks,   \* Seq(Seq(child))
           bi,       \* index of the current block
           cst,      \* [child id -> "idle" | "run" | "ok" | "fail"]
           cphase,   \* "idle" | "run" | "returned"
+          quiet,    \* blocks followed directly by the next block
+          dups,     \* [block -> copies of the identical uncounted statement in it]
           ch        \* history (model checking only)
-cvars == <<blocks, bi, cst, cphase, ch>>
+cvars == <<blocks, bi, cst, cphase, quiet, dups, ch>>
 
 Ids(b) == {blocks[b][i].id : i \in DOMAIN blocks[b]}
 AllIds == UNION {Ids(b) : b \in DOMAIN blocks}
@@ -30,30 +37,39 @@ BlockOf(c) == CHOOSE b \in DOMAIN blocks : c \in Ids(b)
 BlockDone(b) == \A c \in Ids(b) : cst[c] \in {"ok", "fail"}
 BlockFailed(b) == \E c \in Ids(b) : cst[c] = "fail"
 
-CBeginCore(bs) ==
+\* the blocks bi .. b-1 are behind us without an `after`: quiet, complete, none failed
+Advance(b) == /\ b \in DOMAIN blocks /\ b >= bi
+              /\ \A j \in bi..(b-1) : j \in quiet /\ BlockDone(j) /\ ~BlockFailed(j)
+RECURSIVE SumTo(_, _)
+SumTo(d, b) == IF b = 0 THEN 0 ELSE d[b] + SumTo(d, b - 1)
+
+CBeginCore(bs, q, d) ==
   /\ cphase \in {"idle", "returned"}
-  /\ blocks' = bs /\ bi' = 1 /\ cphase' = "run"
+  /\ Len(bs) \notin q /\ DOMAIN d = DOMAIN bs
+  /\ blocks' = bs /\ bi' = 1 /\ cphase' = "run" /\ quiet' = q /\ dups' = d
   /\ cst' = [c \in UNION {{bs[b][i].id : i \in DOMAIN bs[b]} : b \in DOMAIN bs} |-> "idle"]
 
 CStartCore(c) ==
-  /\ cphase = "run" /\ bi \in DOMAIN blocks
-  /\ c \in Ids(bi) /\ cst[c] = "idle"
+  /\ cphase = "run" /\ c \in AllIds
+  /\ Advance(BlockOf(c)) /\ cst[c] = "idle"
   /\ cst' = [cst EXCEPT ![c] = "run"]
-  /\ UNCHANGED <<blocks, bi, cphase>>
+  /\ bi' = BlockOf(c)
+  /\ UNCHANGED <<blocks, cphase, quiet, dups>>
 
 \* out is what the child did: it failed iff the scenario says so
 CEndCore(c, out) ==
   /\ cphase = "run" /\ c \in DOMAIN cst /\ cst[c] = "run"
   /\ out = (IF Child(c).fails THEN "fail" ELSE "ok")
   /\ cst' = [cst EXCEPT ![c] = out]
-  /\ UNCHANGED <<blocks, bi, cphase>>
+  /\ UNCHANGED <<blocks, bi, cphase, quiet, dups>>
 
-\* the statement after block b runs
-CAfterCore(b) ==
-  /\ cphase = "run" /\ b = bi /\ bi \in DOMAIN blocks
-  /\ BlockDone(bi) /\ ~BlockFailed(bi)
-  /\ bi' = bi + 1
-  /\ UNCHANGED <<blocks, cst, cphase>>
+\* the statement after block b runs; bumps = how often the identical statements of the blocks so far have run
+CAfterCore(b, bumps) ==
+  /\ cphase = "run" /\ Advance(b) /\ b \notin quiet
+  /\ BlockDone(b) /\ ~BlockFailed(b)
+  /\ bumps = SumTo(dups, b)
+  /\ bi' = b + 1
+  /\ UNCHANGED <<blocks, cst, cphase, quiet, dups>>
 
 \* a statement after c's block observes the value of c's assignment target
 CSeeCore(c, v) ==
@@ -61,7 +77,7 @@ CSeeCore(c, v) ==
   /\ BlockOf(c) < bi
   /\ Child(c).kind \in {"asgL", "asgI", "asgML"}
   /\ v = Child(c).val
-  /\ UNCHANGED <<blocks, bi, cst, cphase>>
+  /\ UNCHANGED <<blocks, bi, cst, cphase, quiet, dups>>
 
 CReturnCore(err) ==
   /\ cphase = "run"
@@ -69,7 +85,7 @@ CReturnCore(err) ==
   /\ \/ /\ bi = Len(blocks) + 1 /\ err = FALSE
      \/ /\ bi \in DOMAIN blocks /\ BlockDone(bi) /\ BlockFailed(bi) /\ err = TRUE
   /\ cphase' = "returned"
-  /\ UNCHANGED <<blocks, bi, cst>>
+  /\ UNCHANGED <<blocks, bi, cst, quiet, dups>>
 
 -----------------------------------------------------------------------------
 CONSTANTS CKinds, CMaxChildren, CMaxBlocks
@@ -86,15 +102,16 @@ MkBlocks(shapes) ==
 CScenarios ==
   {MkBlocks(s) : s \in UNION {[1..n -> BlockShapes] : n \in 1..CMaxBlocks}}
 
-CInit == blocks = <<>> /\ bi = 1 /\ cst = <<>> /\ cphase = "idle" /\ ch = <<>>
+CInit == blocks = <<>> /\ bi = 1 /\ cst = <<>> /\ cphase = "idle" /\ quiet = {} /\ dups = <<>> /\ ch = <<>>
 CNext ==
   \/ cphase = "idle" /\ \E bs \in CScenarios :
         /\ Cardinality(UNION {{bs[b][i].id : i \in DOMAIN bs[b]} : b \in DOMAIN bs}) <= 6
-        /\ CBeginCore(bs) /\ ch' = <<>>
+        /\ \E q \in SUBSET (1..(Len(bs) - 1)) : CBeginCore(bs, q, [b \in DOMAIN bs |-> 0])
+        /\ ch' = <<>>
   \/ \E c \in DOMAIN cst : CStartCore(c) /\ ch' = Append(ch, [ev |-> "cstart", c |-> c])
   \/ \E c \in DOMAIN cst, out \in {"ok", "fail"} :
         CEndCore(c, out) /\ ch' = Append(ch, [ev |-> "cend", c |-> c, out |-> out])
-  \/ \E b \in DOMAIN blocks : CAfterCore(b) /\ ch' = Append(ch, [ev |-> "after", b |-> b])
+  \/ \E b \in DOMAIN blocks : CAfterCore(b, 0) /\ ch' = Append(ch, [ev |-> "after", b |-> b])
   \/ \E err \in BOOLEAN : CReturnCore(err) /\ ch' = Append(ch, [ev |-> "ret", err |-> err])
 CSpec == CInit /\ [][CNext]_cvars
 
@@ -104,9 +121,14 @@ JoinBarrier ==
      \A c \in Ids(ch[j].b) : \E e \in 1..(j-1) : ch[e].ev = "cend" /\ ch[e].c = c
 OnceEach ==
   \A c \in DOMAIN cst : Cardinality({j \in DOMAIN ch : ch[j].ev = "cstart" /\ ch[j].c = c}) <= 1
+\* a child of a later block starts only when every child of every earlier block has ended - with an `after`
+\* statement in between (not quiet) that statement has run as well
 NextBlockAfter ==
   \A j \in DOMAIN ch : (ch[j].ev = "cstart" /\ BlockOf(ch[j].c) > 1) =>
-     \E a \in 1..(j-1) : ch[a].ev = "after" /\ ch[a].b = BlockOf(ch[j].c) - 1
+     /\ \A p \in 1..(BlockOf(ch[j].c) - 1) : \A c \in Ids(p) :
+           \E e \in 1..(j-1) : ch[e].ev = "cend" /\ ch[e].c = c /\ ch[e].out = "ok"
+     /\ (BlockOf(ch[j].c) - 1) \notin quiet =>
+           \E a \in 1..(j-1) : ch[a].ev = "after" /\ ch[a].b = BlockOf(ch[j].c) - 1
 FailAfterAll ==
   \A j \in DOMAIN ch : (ch[j].ev = "ret" /\ ch[j].err) =>
      /\ \E e \in 1..(j-1) : ch[e].ev = "cend" /\ ch[e].out = "fail"
